@@ -620,4 +620,55 @@ theorem hinv_stepB (fmt : R → List UInt8) (env : Env R) (hd : env.decrypt = no
     rw [← s1] at hbk
     rw [hbytes]; exact h.rep.of_same hbk
 
+theorem stepB_bytes_mono (fmt : R → List UInt8) (b : BDoc R) (op : OpB R) :
+    b.bytes.length ≤ (stepB fmt b op).1.bytes.length := by
+  rcases stepB_bytes fmt b op with h | ⟨_, i, h⟩
+  · rw [h]; exact Nat.le_refl _
+  · rcases (saveB_cases fmt b _ _ h).2.2 with ⟨_, _, hb⟩ | ⟨hno, _⟩
+    · rw [hb]; simp
+    · exact absurd rfl (hno i)
+
+theorem runB_bytes_mono (fmt : R → List UInt8) : ∀ (ops : List (OpB R)) (b : BDoc R),
+    b.bytes.length ≤ (runB fmt b ops).1.bytes.length := by
+  intro ops
+  induction ops with
+  | nil => intro b; exact Nat.le_refl _
+  | cons op ops ih =>
+    intro b
+    simp only [runB]
+    exact Nat.le_trans (stepB_bytes_mono fmt b op) (ih _)
+
+/-- **a history keeps the invariant** -/
+theorem hinv_runB (fmt : R → List UInt8) (env : Env R) (hd : env.decrypt = none) (pfuel : Nat)
+    (dec : Dict R → List UInt8 → Out (List UInt8)) (hdec : NoFilter dec) (b0 : BDoc R) (chain0)
+    (hb : BaseOK b0.doc chain0) (hv : BaseVals fmt env.parseReal b0.doc) :
+    ∀ (ops : List (OpB R)) (b : BDoc R), HInv fmt env pfuel dec b0 b → GoodHist fmt env.parseReal b ops →
+      (runB fmt b ops).1.bytes.length ≤ fileMax → 3 * (runB fmt b ops).1.bytes.length ≤ pfuel →
+      HInv fmt env pfuel dec b0 (runB fmt b ops).1 := by
+  intro ops
+  induction ops with
+  | nil => intro b h _ _ _; exact h
+  | cons op ops ih =>
+    intro b h hg hsmall hpf
+    simp only [runB] at hsmall hpf ⊢
+    have hm := runB_bytes_mono fmt ops (stepB fmt b op).1
+    exact ih _ (hinv_stepB fmt env hd pfuel dec hdec b0 b chain0 hb hv h op hg.1 (by omega) (by omega)) hg.2 hsmall hpf
+
+theorem hinv_base (fmt : R → List UInt8) (env : Env R) (pfuel : Nat) (dec : Dict R → List UInt8 → Out (List UInt8))
+    (b0 : BDoc R) (chain0) (hb : BaseOK b0.doc chain0) (hrep : Rep (parsers env pfuel dec) b0.bytes b0.doc.st) :
+    HInv fmt env pfuel dec b0 b0 :=
+  ⟨inv_base b0.doc chain0 hb, hrep, by intro j v g hc; rw [hb.changes_nil] at hc; simp [chLookup] at hc, rfl⟩
+
+/-- every operation of the lifted history is admissible for the abstract theorems -/
+theorem liftOps_ok (fmt : R → List UInt8) : ∀ (ops : List (OpB R)) (b : BDoc R), ∀ op ∈ liftOps fmt b ops, OpOK op := by
+  intro ops
+  induction ops with
+  | nil => intro b op h; simp [liftOps] at h
+  | cons o ops ih =>
+    intro b op h
+    simp only [liftOps, List.mem_cons] at h
+    rcases h with rfl | h
+    · cases o <;> first | trivial | exact layoutOf_pos fmt b
+    · exact ih _ op h
+
 end RepBytes
